@@ -10,6 +10,7 @@ Alpha == <<
   Recv_(3, 255, 3, 0, P57), Recv_(3, 255, 3, 11, Pa), Recv_(3, 255, 3, 12, Pa), Recv_(3, 255, 3, 21, PEmpty),
   Recv_(3, 255, 3, 22, P1), Recv_(3, 255, 3, 22, Px), Recv_(3, 255, 3, 32, PEmpty), Recv_(4, 0, 1, 0, Pa),
   Recv_(1, 0, 1, 0, Pa),                                                         \* a message that succeeds
+  Recv_(255, 255, 3, 3, PEmpty),                                                 \* an id is handed out (then that node reports a child)
   Recv_(1, 255, 3, 22, P1), Recv_(1, 255, 3, 32, PEmpty),                        \* the known node wakes inside an episode
   Recv_(0, 255, 3, 2, P21), Recv_(0, 255, 0, 18, P21),                           \* a version report inside an episode
   Recv_(3, 255, 0, 17, P20), Recv_(1, 255, 0, 17, P20), Recv_(2, 255, 0, 17, P20), Recv_(4, 255, 0, 17, P20),
